@@ -128,6 +128,25 @@ def correspondence(ctx):
                 if len(ks) > 0:
                     ctx.disagree("from_versions:" + name, "fromversions %s" % ks, "raises " + type(e).__name__, "a range", True,
                                  {"scheme": name, "versions": texts, "clause": "raises"}, spec="a range")
+        # a version whose text begins with a comparator character, or is not ASCII, is still a version when it is LISTED
+        for t in ("*", "*1", "=1.0", "<2.0", ">1", "!=1", ">=1.0", "1.0-b\u00e9ta", "v1.0"):
+            try:
+                v = S.vclass(name)(t)
+                other = S.vclass(name)("9.9")
+            except Exception:  # noqa: BLE001 — not a version of this scheme
+                continue
+            ctx.count("from_versions:" + name, key=("odd", t), nontrivial=True, branch="odd first character")
+            try:
+                fv = rcls.from_versions([t, "9.9"])
+                ok = (v in fv) and (other in fv) and all(c.comparator == "=" for c in fv.constraints) and len(fv.constraints) == 2
+                got = str(fv)
+            except Exception as e:  # noqa: BLE001
+                ok, got = False, "raises %s" % type(e).__name__
+            if not ok:
+                ctx.disagree("from_versions:" + name, "fromversions [%r, '9.9']" % t, got, "two '=' constraints holding both", True,
+                             {"scheme": name, "versions": [t, "9.9"], "clause": "a listed version is not kept as the version it is"},
+                             spec="contains exactly the listed versions")
+                break
         # a one-shot iterable (an iterator, a generator, map()) is a list of versions like any other
         for i in range(6):
             m = bench.mapping(8, rng)
